@@ -1017,6 +1017,31 @@ func checkPolygon(c polyCase) ev.Outcome {
 		o.Finding = "polygon-oriented-area"
 		return o
 	}
+	// a loop OBJECT that is a hole of p, handed alone to a new polygon, is that
+	// polygon's only shell: its area is the ring's, not the negated one
+	for k := 0; k < p.NumLoops(); k++ {
+		if !p.Loop(k).IsHole() {
+			continue
+		}
+		hl := p.Loop(k)
+		for _, r := range rings {
+			if r.n == hl.NumVertices() && r.v[0].Pt() == hl.Vertex(0) {
+				q := s2.PolygonFromLoops([]*s2.Loop{hl})
+				if g := q.Area(); math.Abs(g-r.area) > r.aerr {
+					o.Err = fmt.Sprintf("single-loop polygon built from a loop that was a hole before: Area=%v, ring area %v", g, r.area)
+					o.Finding = "polygon-reused-loop"
+					return o
+				}
+				if d := q.Centroid().Vector.Sub(r.cen).Norm(); d > r.cerr {
+					o.Err = fmt.Sprintf("single-loop polygon built from a loop that was a hole before: Centroid=%v, ring centroid %v", q.Centroid().Vector, r.cen)
+					o.Finding = "polygon-reused-loop"
+					return o
+				}
+			}
+		}
+		break // one is enough (the old polygon p is not used for these loops afterwards except through Invert below, so rebuild it)
+	}
+	p = s2.PolygonFromLoops(mk(false))
 	// complement
 	p.Invert()
 	gi := p.Area()
